@@ -6,6 +6,7 @@ pub mod c01;
 pub mod c07;
 pub mod c08;
 pub mod c09;
+pub mod c10;
 pub mod c12;
 pub mod c13;
 pub mod c14;
@@ -17,6 +18,8 @@ pub fn run(ctx: &Ctx, st: &mut Stats) -> bool {
         "C07" => c07::run(ctx, st),
         "C08" => c08::run(ctx, st),
         "C09" => c09::run(ctx, st),
+        "C10" => c10::run(ctx, st, false),
+        "C11" => c10::run(ctx, st, true),
         "C12" => c12::run(ctx, st),
         "C13" => c13::run(ctx, st),
         "C14" => c14::run(ctx, st),
@@ -32,6 +35,8 @@ pub fn replay(prop: &str, case: &Value, st: &mut Stats) -> bool {
         "C07" => c07::replay(case, st),
         "C08" => c08::replay(case, st),
         "C09" => c09::replay(case, st),
+        "C10" => c10::replay(case, st, false),
+        "C11" => c10::replay(case, st, true),
         "C12" => c12::replay(case, st),
         "C13" => c13::replay(case, st),
         "C14" => c14::replay(case, st),
